@@ -2,6 +2,7 @@ package main
 
 import (
 	"fmt"
+	"go/token"
 	"sort"
 	"strings"
 	"sync"
@@ -58,6 +59,9 @@ func init() {
 			Old: "row.NullColumns, pos = newBitmap(data, pos, numDataColumns)", New: "row.NullColumns, pos = newBitmap(data, pos, numIdentifyColumns)",
 			Old2: "row.NullIdentifyColumns, pos = newBitmap(data, pos, numIdentifyColumns)", New2: "row.NullIdentifyColumns, pos = newBitmap(data, pos, numDataColumns)",
 			Expect: "C09-R4 null-width@Rows"},
+		Variant{ID: "c09-r5-bitcount-popcount", Prop: "C09", File: "replication/binlog_event.go",
+			Old: "\tsum := 0\n\tfor i := 0; i < b.count; i++ {\n\t\tif b.Bit(i) {\n\t\t\tsum++\n\t\t}\n\t}\n\treturn sum", New: "\tsum := 0\n\tfor _, x := range b.data {\n\t\tfor ; x != 0; x &= x - 1 {\n\t\t\tsum++\n\t\t}\n\t}\n\treturn sum",
+			Expect: "C09-R5 count@BitCount"},
 		Variant{ID: "c09-r5-bit-msb", Prop: "C09", File: "replication/binlog_event.go",
 			Old: "func (b *Bitmap) Bit(index int) bool {\n\tbyteIndex := index / 8\n\tbitMask := byte(1 << (uint(index) & 0x7))", New: "func (b *Bitmap) Bit(index int) bool {\n\tbyteIndex := index / 8\n\tbitMask := byte(0x80 >> (uint(index) & 0x7))",
 			Expect: "C09-R5"},
@@ -396,6 +400,46 @@ func c09R5(a *A) {
 		t := newTB(nil)
 		adv := t.term(ret.Results[1]).String()
 		a.check(adv == "(/ count+7 8)+pos", rule, "advance@newBitmap", w.posOf(ret), "next position = pos + (count+7)/8", "newBitmap advances the position by "+adv)
+	}
+	// BitCount counts exactly the bits 0..count-1 (padding bits of the last byte may be set by the master and must not count)
+	bc := w.method(w.Repl, "Bitmap", "BitCount")
+	if a.need(bc != nil, rule, "Bitmap.BitCount") {
+		a.touch(bc)
+		var hdr *ssa.BasicBlock
+		for _, b := range bc.Blocks {
+			if isLoopHeader(b) {
+				hdr = b
+			}
+		}
+		okBound, okBit, okAcc := false, false, false
+		var idx ssa.Value
+		if hdr != nil {
+			if iff, ok := lastInstr(hdr).(*ssa.If); ok {
+				if bo, ok := iff.Cond.(*ssa.BinOp); ok && bo.Op == token.LSS {
+					idx = bo.X
+					okBound = strings.HasSuffix(fieldPath(bo.Y), "count")
+				}
+			}
+			instrs(bc, func(in ssa.Instruction) {
+				if c, ok := isBitCall(valueOf(in)); ok && len(c.Common().Args) == 2 && c.Common().Args[1] == idx && c.Common().Args[0] == ssa.Value(bc.Params[0]) {
+					okBit = true
+					// the accumulator grows by one exactly on the true edge of this test
+					for _, b := range bc.Blocks {
+						if iff, ok := lastInstr(b).(*ssa.If); ok && iff.Cond == ssa.Value(c) {
+							for _, in2 := range b.Succs[0].Instrs {
+								if bo, ok := in2.(*ssa.BinOp); ok && bo.Op == token.ADD {
+									if k, ok := constInt(bo.Y); ok && k == 1 {
+										okAcc = true
+									}
+								}
+							}
+						}
+					}
+				}
+			})
+		}
+		a.check(okBound && okBit && okAcc, rule, "count@BitCount", w.pos(bc.Pos()), "counts Bit(i) for i in [0,count)",
+			fmt.Sprintf("BitCount does not count exactly the bits below count (loop bounded by count: %v, tests Bit(i): %v, +1 per set bit: %v): padding bits of the last bitmap byte, which a master may set, are counted as present columns and every row's NULL bitmap is mis-sized", okBound, okBit, okAcc))
 	}
 	// Bit and Set: same byte, same mask
 	addr := func(f *ssa.Function) (string, string) {
